@@ -293,6 +293,22 @@ pub fn gen(rng: &mut Rng, tier: &str, dist: &mut Dist) -> Vec<String> {
             }
         }
     }
+    // hand-made LZMA2 streams of stored chunks at the size-field borders (1, 2, 65535, 65536 bytes),
+    // first chunk with and without dictionary reset, followed by trailing bytes
+    for (k, sizes_list) in [vec![65536usize], vec![1, 65536, 2], vec![65535, 65536], vec![65536, 65536, 1]].iter().enumerate() {
+        let mut stream = Vec::new();
+        for (i, &sz) in sizes_list.iter().enumerate() {
+            stream.push(if i == 0 && k != 2 { 1u8 } else if i == 0 { 2u8 } else { *rng.pick(&[1u8, 2]) });
+            stream.push(((sz - 1) >> 8) as u8);
+            stream.push((sz - 1) as u8);
+            let d = gen_data_len(rng, "text", sz);
+            stream.extend_from_slice(&d);
+        }
+        stream.push(0);
+        stream.extend_from_slice(&[7, 7]);
+        dist.bump("lzma2.handmade_stored");
+        cmds.push(format!("lzma2 {} none {} {}", *rng.pick(&[65536u32, 4096, 1 << 20]), hex(&stream), ints(&gen_sizes(rng))));
+    }
     cmds
 }
 
